@@ -20,7 +20,7 @@ CONSTANTS
 
 \* defects of the nonce: answered 438 + NONCE + REALM
 NonceDefects == {"forgedNonce", "mutTsNonce", "mutMacNonce", "otherInstNonce", "staleNonce", "futureNonce",
-                 "emptyNonce", "garbageNonce"}
+                 "emptyNonce", "garbageNonce", "longNonce"}
 \* defects found before / after the nonce check: answered with an error without success (400)
 OtherDefects == {"noNonce", "noUser", "noRealm", "ghostUser", "wrongPw", "truncMI", "flipMI", "flipBody", "otherUserKey"}
 
